@@ -21,7 +21,9 @@ TEXT["C10"] = ("fault_enumeration", "the reference implementation as a hostile p
 TEXT["C12"] = ("exploration", "everything the real encoders put on the simulated wire over many sessions and writes per run is parsed by the reference decoders, which recover (derived key, nonce) per sealed unit; oracle: all pairs distinct, per-session random values pairwise distinct, packet ids strictly increasing.", "DESIGN.md 4/C12")
 TEXT["C06"] = ("exploration", "seeded attacks against the real server of every protocol (random data, reference handshakes under wrong / one-bit-wrong / unregistered credentials, missing identity headers, other protocols, truncations, forged datagrams); oracle on the simulated registry: no connect / send toward a target for an unauthenticated peer; user separation with two registered users sharing a datagram session id.", "DESIGN.md 4/C06")
 TEXT["C07"] = ("exploration", "exhaustive short strings plus random, structure-aware, truncated and authenticated-but-malformed inputs (reference sender) against every network-facing decoder of the real client and server, with EOF and quiet after them; oracle = the process-wide panic monitor stays empty and the service carries on.", "DESIGN.md 4/C07")
+TEXT["C09"] = ("exploration", "task level: batches of concurrent flows through the real client and server versus each flow alone, compared on their observable results, under seeded task interleavings; thread level: the shared salt cache and the real 2022 handshake decoder under shuttle's controlled thread scheduler (seeded random + PCT, replayable schedule files).", "DESIGN.md 4/C09, E3")
 NOTE = {
+ "C09": "two engines (simnet + shuttle); whole-relay parallelism on a multi-thread runtime and the UDP cipher cache at thread level are not covered",
  "C06": "trusted base as C03; attacks are sampled",
  "C07": "trusted base as C03; short strings exhaustive up to length 2, otherwise sampled; hostile-server replies to the client are sampled by C10 and the link checks",
  "C12": "trusted base as C03; detects missing / reused draws and counters, not weak randomness",
@@ -38,15 +40,16 @@ NOTE = {
  "C04": "trusted base as C01 plus the harness segmenter; plain tcp carrier; TLS/WebSocket re-segmentation is only sampled (C01 knobs), QUIC not covered",
  "C05": "trusted base as C01 plus the harness mutator; plain tcp carrier; VMess padding is unauthenticated by design (prefix oracle only); datagrams covered elsewhere",
 }
-hooks = ["b814c06", "5a9de8b", "57fdc10", "4aa1ab9"]
+hooks = ["b814c06", "5a9de8b", "57fdc10", "4aa1ab9", "ec40427"]
 claimed = [p for p in props if p in CHECKS and p in TEXT]
 m = {
  "version": 1,
- "setup_cmd": "cd /verif/sim && CARGO_NET_OFFLINE=true cargo build --release --offline",
+ "setup_cmd": "cd /verif/sim && CARGO_NET_OFFLINE=true cargo build --release --offline && cd /verif/shuttle && CARGO_NET_OFFLINE=true cargo build --release --offline",
  "hooks": {"guard": "octo_squirrel_verif",
            "enable": "rustc --cfg octo_squirrel_verif (set in /verif/sim/.cargo/config.toml build.rustflags together with --cfg tokio_unstable and --cfg getrandom_backend=\"custom\"); the harness crate /verif/sim depends on /repo's three crates by path, so every check rebuilds from /repo's working tree",
            "baseline_off_cmd": "cd /repo && cargo test --workspace --no-fail-fast --offline", "source_commits": hooks, "add_only": True},
- "engines": [{"name": "E1-simnet", "path": "/verif/sim + /verif/seam", "serves_properties": claimed,
+ "engines": [{"name": "E3-shuttle", "path": "/verif/shuttle", "serves_properties": ["C09"], "kind_free_text": "shuttle controlled thread scheduler over the real salt cache + 2022 handshake decoder (shadow manifest of /repo's library, hook H6)"},
+             {"name": "E1-simnet", "path": "/verif/sim + /verif/seam", "serves_properties": claimed,
               "kind_free_text": "deterministic whole-system simulation: real client/server mains on a simulated network, paused clock, seeded scheduler and entropy, fault injection (segmentation, delay, partial writes, back-pressure, resets, link mutation), history oracles, plan-level shrinking and replay"}],
  "checks": [{
     "property_id": p, "quick_cmd": f"./check {p} --tier quick", "thorough_cmd": f"./check {p} --tier thorough",
